@@ -704,3 +704,63 @@ def _r12_4(ctx: Ctx, rule: str) -> None:
                 elif inst not in seen:
                     seen.add(inst)
                     run.fail(rule, inst, "a stepped range is not translated as item % step == start % step (plus the bounds)", fi=fs, node=p.node)
+
+
+def r12_6_factories(ctx: Ctx, rule: str = "R12.6") -> None:
+    """Expression factories build the node they are documented to build (operator name, operand order)."""
+    run, m = ctx.run, ctx.m
+    run.rule(
+        rule,
+        "expression factories: eq/ne/lt/gt/le/ge map to __eq__/__ne__/__lt__/__gt__/__le__/__ge__ with (self, other) in "
+        "that order; method/predicate_method pass self first and the arguments in order; contains() builds item-in-container",
+        expected_min=10,
+    )
+    ce = ctx.cls(EXPRESSION, "ColumnExpression")
+    for short in ("eq", "ne", "lt", "gt", "le", "ge"):
+        f = ce.methods.get(short)
+        inst = f"ColumnExpression.{short}"
+        if f is None:
+            run.fail(rule, inst, f"ColumnExpression.{short} is missing", file=ce.module.path, line=ce.node.lineno, func="ColumnExpression")
+            continue
+        other = [q for q in f.params if q != "self"][0]
+        rets = [p.value for p in ctx.paths(f) if p.outcome == "return"]
+        ok = len(rets) == 1 and isinstance(rets[0], ast.Call) and src(rets[0].func) == "self.predicate_method" and len(rets[0].args) == 2 and _const(rets[0].args[0]) == f"__{short}__" and src(rets[0].args[1]) == other
+        if ok:
+            run.ok(rule, inst)
+        else:
+            run.fail(rule, inst, f"ColumnExpression.{short}(other) returns `{src(rets[0]) if rets else None}` instead of self.predicate_method('__{short}__', other)", fi=f)
+    for meth, target in (("method", "function"), ("predicate_method", "predicate_function")):
+        f = ce.methods.get(meth)
+        inst = f"ColumnExpression.{meth}"
+        rets = [p.value for p in ctx.paths(f) if p.outcome == "return"] if f else []
+        ok = len(rets) == 1 and isinstance(rets[0], ast.Call) and call_attr(rets[0]) == target and [src(a) for a in rets[0].args[:3]] == ["name", "self", "*args"]
+        if ok:
+            run.ok(rule, inst)
+        else:
+            run.fail(rule, inst, f"ColumnExpression.{meth} must build {target}(name, self, *args): the receiver is the first operand", fi=f or ce.methods.get("eq"))
+    for fn, ctor in (("function", "ColumnFunction"), ("predicate_function", "PredicateFunction")):
+        f = ce.methods.get(fn)
+        rets = [p.value for p in ctx.paths(f) if p.outcome == "return"] if f else []
+        ok = len(rets) == 1 and isinstance(rets[0], ast.Call) and (dotted(rets[0].func) or "") == ctor and [src(a) for a in rets[0].args[:2]] == ["name", "args"]
+        if ok:
+            run.ok(rule, f"ColumnExpression.{fn}")
+        else:
+            run.fail(rule, f"ColumnExpression.{fn}", f"ColumnExpression.{fn} must build {ctor}(name, args, ...)", fi=f or ce.methods.get("eq"))
+    cc = ctx.cls("_columns/_container.py", "ColumnContainer")
+    f = cc.methods.get("contains")
+    rets = [p.value for p in ctx.paths(f) if p.outcome == "return"] if f else []
+    item = [q for q in f.params if q != "self"][0] if f else "item"
+    ok = len(rets) == 1 and isinstance(rets[0], ast.Call) and (dotted(rets[0].func) or "") == "ColumnInContainer" and [src(a) for a in rets[0].args] == [item, "self"]
+    if ok:
+        run.ok(rule, "ColumnContainer.contains")
+    else:
+        run.fail(rule, "ColumnContainer.contains", "ColumnContainer.contains(item) must build ColumnInContainer(item, self)", fi=f or cc.methods.get("range_literal"))
+    pr = ctx.cls(PREDICATE, "Predicate")
+    for fn, ctor, arg in (("literal", "PredicateLiteral", "value"), ("reference", "PredicateReference", "tag")):
+        f = pr.methods.get(fn)
+        rets = [p.value for p in ctx.paths(f) if p.outcome == "return"] if f else []
+        ok = len(rets) == 1 and isinstance(rets[0], ast.Call) and (dotted(rets[0].func) or "") == ctor and [src(a) for a in rets[0].args] == [arg]
+        if ok:
+            run.ok(rule, f"Predicate.{fn}")
+        else:
+            run.fail(rule, f"Predicate.{fn}", f"Predicate.{fn} must build {ctor}({arg})", fi=f or pr.methods.get("logical_not"))
